@@ -81,7 +81,13 @@ def run(res, tier, seed):
     build_rva()
     n = 40 if tier == "quick" else 400
     reps = 6 if tier == "quick" else 12
-    srcs = programs(rng, n)
+    # nodes that belong to two functions (shared tails): every per-node list of functions is a hash
+    # set in the real code; these come first so that the CLI stage (all modes, --yaml included) sees them
+    shared = ["main:\n    jal fa\n    jal fb\n    li a7, 10\n    ecall\nfa:\n    li a0, 1\n    j tail\nfb:\n    li a0, 2\ntail:\n"
+              "    addi a0, a0, 1\n    ret\n",
+              "main:\n    jal fa\n    jal fb\n    jal fc\n    li a7, 10\n    ecall\nfa:\n    li a0, 1\n    j tail\nfb:\n    li a0, 2\n"
+              "    j tail\nfc:\n    li a0, 3\ntail:\n    addi a0, a0, 1\n    ret\n"]
+    srcs = shared + programs(rng, n)
     # two-return functions whose paths disagree about a saved register / sp, in both file layouts:
     # the diagnostics must not depend on which return the (hash-ordered) markup makes the exit
     from props.graphfacts import early_out_programs
@@ -161,7 +167,7 @@ def run(res, tier, seed):
         if strip(model[j]) != strip(model_d[j]):
             continue
         amb = not ambiguous_free(model[j])
-        for mode in (["--json"], ["--compact", "--no-color"], ["--no-color"]):
+        for mode in (["--json"], ["--compact", "--no-color"], ["--no-color"], ["--yaml", "--no-output"]):
             outs = set()
             for _ in range(4):
                 p = subprocess.run([RVA, "lint"] + mode + [path], stdout=subprocess.PIPE, stderr=subprocess.DEVNULL,
